@@ -593,7 +593,11 @@ func genTH(rng *Rng, mode string, long bool) *thSession {
 				if rng.Chance(1, 5) {
 					back = uint64(rng.Range(30, 4000))
 				}
-				s.add(mkFlight(day-back), rng)
+				fb := mkFlight(day - back)
+				if rng.Chance(1, 2) {
+					s.addRemoveProbe(fb) // also a late report older than everything held (lands in the last used slot)
+				}
+				s.add(fb, rng)
 			case r < 14: // tie with a stored flight
 				n := s.count()
 				if n > 0 {
@@ -611,7 +615,14 @@ func genTH(rng *Rng, mode string, long bool) *thSession {
 			case r < 16: // remove a stored flight
 				n := s.count()
 				if n > 0 {
-					s.removeAt(rng.Intn(n), rng)
+					i := rng.Intn(n)
+					switch rng.Intn(8) {
+					case 0, 1:
+						i = n - 1 // the oldest flight held (slot 99 of a full history)
+					case 2:
+						i = 0
+					}
+					s.removeAt(i, rng)
 				}
 			case r < 17: // remove something that is not there / differs in one field
 				n := s.count()
